@@ -336,8 +336,10 @@ Dedupe(es, i, acc) ==
 (************************** the outcome of a parse *************************)
 (* Parse(case): the entry rule is evaluated at offset 0 after the first    *)
 (* rune has been advanced onto (outside any rule).                         *)
+(* InitState("x", v) and GlobalStore("g", v) set the initial stores *)
+XInit(C) == [X0 EXCEPT !.store = [Store0 EXCEPT !.x = C.opt.initx], !.g = C.opt.initg]
 RefRun(C) ==
-  LET x1 == Advance(C, X0, 0, "")
+  LET x1 == Advance(C, XInit(C), 0, "")
   IN EvRule(C, C.entry, x1, FALSE)
 
 EOFW == <<69, 79, 70>>
